@@ -50,6 +50,9 @@ SET_PROGS = [
     "sorted(list(s), key = fn(x) length(x))", "grouped(sorted(s), cmp = fn(a, b) 0)", "unique(s, key = fn(x) length(x))",
     "min(list(s), key = fn(x) length(x))", "max(list(s), key = fn(x) 0)", "first(sorted(s, key = fn(x) 0))",
     "type(s)", "set(list(s))", "parse_json(string(list(s)))", "for_each(s, fn(x) x); 1", "permutations(list(s))[0]",
+    # operators with a set operand
+    "['head'] + s", "def acc = ['x']; acc += s; acc", "add([0], s)", "[] + s + t", "s + ['z']", "string(s - 'a')", "list(s) + list(t)",
+    "[1] * 2 + s", "s == t", "[s, t]", "<<s, t>>", "sum([length(x) for x in s])", "zip(s, t)", "enumerate(s)", "first(s + t)",
 ]
 
 MAP_PROGS = [
@@ -72,7 +75,8 @@ SORTED_RESULT = {"[...s]": "['a', 'b', 'c']", "list(s)": "['a', 'b', 'c']", "def
 # mixed scalars: sorted order across kinds must still be one fixed order
 MIXED = [[1, "pear", "b", 10], [2, "2", "apple"], ["x", 5, None], [1.5, "1.5", 3], [True, "TRUE", 0]]
 MIXED_PROGS = ["[...s]", "list(s)", "string(s)", "sorted(list(s))", "[x for x in s]", "def r = []; for x in s do append(r, x) end; r",
-               "string(<<<x => 1 for x in s>>>)", "def f(a...) a...; f(...s)", "first(list(s))", "string(s + 'zz')"]
+               "string(<<<x => 1 for x in s>>>)", "def f(a...) a...; f(...s)", "first(list(s))", "string(s + 'zz')",
+               "[0] + s", "def acc = []; acc += s; acc"]
 
 
 # maps whose keys are not strings (such entries are passed positionally when spread into a call)
